@@ -454,7 +454,13 @@ DeepCopy(s, src, v) ==
   LET k == Kind(s, src)
       A == s.n[src].at
       verdicts == [i \in 1..Len(A) |-> AttrCompat(k, A[i], v)]
-  IN IF \E i \in 1..Len(A) : verdicts[i] = "err" THEN [ok |-> FALSE, s |-> s, id |-> 0]
+      \* character data: an enumeration value that does not exist in version v cannot be copied
+      cdbad == \E j \in 1..Len(s.n[src].cont) :
+                  LET c == s.n[src].cont[j] IN
+                  /\ c.t = "c" /\ HasSpec(k) /\ Schema[k].cdata.k = "Enum"
+                  /\ ~(c.v.k = "e" /\ \E q \in 1..Len(Schema[k].cdata.items) :
+                                         Schema[k].cdata.items[q].i = c.v.v /\ InMask(Schema[k].cdata.items[q].mask, v))
+  IN IF cdbad \/ \E i \in 1..Len(A) : verdicts[i] = "err" THEN [ok |-> FALSE, s |-> s, id |-> 0]
      ELSE LET id == Len(s.n) + 1
               keepIx == {i \in 1..Len(A) : verdicts[i] = "keep"}
               at2 == [j \in 1..Cardinality(keepIx) |-> A[SortInts(keepIx)[j]]]
@@ -719,6 +725,33 @@ RemoveFile(s, m, f) ==
             IN {Ok(s3, 0)}
        ELSE {Ok((CHOOSE o \in RemoveFromFile(s1, rt, f) : TRUE).st, 0)}
 
+\* ------------------------------------------------------------------ duplicate()
+RECURSIVE DupFiles(_, _, _)
+DupFiles(s, M, fs) == IF fs = <<>> THEN s
+                      ELSE DupFiles((CHOOSE o \in CreateFile(s, M, s.f[Head(fs)].name, s.f[Head(fs)].ver) : TRUE).st, M, Tail(fs))
+RECURSIVE DupCopies(_, _, _)
+\* [ok, s, err]
+DupCopies(s, rid, ids) ==
+  IF ids = <<>> THEN [ok |-> TRUE, s |-> s, err |-> ""]
+  ELSE LET o == CHOOSE x \in CopySub(s, rid, Head(ids), -1) : TRUE IN
+       IF o.res.t # "ok" THEN [ok |-> FALSE, s |-> s, err |-> o.res.v] ELSE DupCopies(o.st, rid, Tail(ids))
+RECURSIVE DupFm(_, _, _, _, _)
+\* walk both trees in parallel (positionally, like the zip of the two iterators) and transfer the local file sets by file name
+DupFm(s, D1, D2, m, M) ==
+  IF D1 = <<>> \/ D2 = <<>> THEN s
+  ELSE LET src == s.n[Head(D1)].fm
+           mapped == {g \in SeqToSet(s.files[M]) : \E f \in src : s.f[f].name = s.f[g].name}
+       IN DupFm(SetF(s, Head(D2), "fm", mapped), Tail(D1), Tail(D2), m, M)
+Duplicate(s, m) ==
+  LET M == Len(s.root) + 1
+      rid == Len(s.n) + 1
+      s0 == [s EXCEPT !.n = Append(@, NewNode("AUTOSAR", PM(M))), !.root = Append(@, rid), !.files = Append(@, <<>>),
+                      !.idx = Append(@, {}), !.refo = Append(@, {})]
+      s1 == DupFiles(s0, M, s.files[m])
+      dc == DupCopies(s1, rid, SubIds(s1, s1.root[m])) IN
+  IF ~dc.ok THEN {Fail(s, dc.err)}
+  ELSE {Ok(DupFm(dc.s, Dfs(dc.s, dc.s.root[m]), Dfs(dc.s, rid), m, M), M)}
+
 \* ------------------------------------------------------------------ dispatcher: action record -> outcomes
 \* action fields: op, and (as needed) m, p, c, k (element name), name, pos, val, an, f, ver
 Do(s, a) ==
@@ -739,6 +772,7 @@ Do(s, a) ==
     [] a.op = "SetComment"     -> SetComment(s, a.p, a.name)
     [] a.op = "AddToFile"      -> AddToFile(s, a.p, a.f)
     [] a.op = "RemoveFromFile" -> RemoveFromFile(s, a.p, a.f)
+    [] a.op = "Duplicate"      -> Duplicate(s, a.m)
 
 \* the empty universe: NM models without files
 EmptyState(NM) ==
